@@ -349,7 +349,7 @@ def host_two_reshapes_matmul(g):
 @register("one_reshape_matmul_reshape_rule")
 def host_one_reshape_matmul(g):
     # the two-reshape form is also an instance of the one-reshape pattern (input_b = Reshape output, shape via value_info)
-    return _reshape_matmul(g, g.chance(3, 20), view_one=True)
+    return _reshape_matmul(g, g.draw(st.integers(0, 19)) in (6, 13), view_one=True)
 
 
 # ------------------------------------------------------------------------------------------------ gemm_to_matmul_add
